@@ -76,8 +76,32 @@ def quiet():
             logging.disable(logging.NOTSET)
 
 
+class HarnessMismatch(Exception):
+    """the harness itself failed to reach into the code under test (a private name it uses was renamed, a signature it
+    calls changed): an infrastructure problem of the check (exit 2), never an observation about the code's behaviour"""
+
+
+def raised_by_harness(exc):
+    """was `exc` raised by a statement of the harness (not inside jade or a library it calls)?"""
+    tb = getattr(exc, "__traceback__", None)
+    if tb is None:
+        return False
+    while tb.tb_next is not None:
+        tb = tb.tb_next
+    return os.path.abspath(tb.tb_frame.f_code.co_filename).startswith(str(VERIF / "harness") + os.sep)
+
+
+def not_a_harness_mismatch(exc):
+    """AttributeError / TypeError / NameError / ImportError raised by a harness statement = the harness no longer fits the
+    code (renamed private helper, changed call signature).  Injected faults are OSError / Timeout / kills, never these."""
+    if isinstance(exc, (AttributeError, TypeError, NameError, ImportError)) and raised_by_harness(exc):
+        raise HarnessMismatch(f"harness does not fit the code under test: {type(exc).__name__}: {exc}") from exc
+    return exc
+
+
 def err_enum(exc):
     """Map an exception of the implementation to the model's small error enum."""
+    not_a_harness_mismatch(exc)
     n = type(exc).__name__
     table = {
         "AssertionError": "assertion",
@@ -138,3 +162,85 @@ class Suite:
 
     def teardown(self):
         pass
+
+
+# ------------------------------------------------------------------------------------------------
+# The fake process / time boundary must not depend on how a jade module spells its imports
+# ------------------------------------------------------------------------------------------------
+# The suites fake the boundary by replacing the NAME `time` / `subprocess` inside a jade module (`rc.time = _T`).  Two
+# harmless rewrites of the code under test used to defeat that and produced concrete alarms on unchanged behaviour:
+#   * `from time import sleep` / `from subprocess import Popen` bind the real function to another module global;
+#   * `from time import time` <-> `import time` changes whether the name `time` is called or used as a module.
+# `normalize_boundary()` turns every such alias into a forwarder that looks the function up under the module's
+# `time` / `subprocess` name at call time (the real one when nothing is faked: same behaviour), and `dual_time(fake)`
+# gives a fake that can be both called (`time()`) and used as a module (`time.time()`, `time.sleep()`).
+_BOUNDARY_MODULES = ("time", "subprocess")
+_BOUNDARY_ATTRS = {"time": ("time", "sleep", "monotonic", "perf_counter"),
+                   "subprocess": ("Popen", "call", "run", "check_call", "check_output")}
+_JADE_BOUNDARY_USERS = (
+    "jade.utils.run_command", "jade.utils.subprocess_manager", "jade.jobs.async_cli_command", "jade.jobs.job_queue",
+    "jade.jobs.job_runner", "jade.jobs.job_submitter", "jade.jobs.cluster", "jade.jobs.results_aggregator",
+    "jade.jobs.pipeline_manager", "jade.hpc.hpc_submitter", "jade.hpc.slurm_manager", "jade.cli.cancel_jobs",
+    "jade.cli.run_jobs", "jade.result", "jade.events", "jade.resource_monitor",
+)
+
+
+class _DualTime:
+    def __init__(self, fake):
+        self.__dict__["_fake"] = fake
+
+    def __call__(self, *a, **kw):
+        import time as real
+        return getattr(self._fake, "time", real.time)(*a, **kw)
+
+    def __getattr__(self, name):
+        return getattr(self._fake, name)
+
+    def __repr__(self):
+        return f"<dual time fake over {self._fake!r}>"
+
+
+def dual_time(fake):
+    """`fake` (an object with `time` / `sleep` …) in a form that serves a module whichever way it imported time:
+    `time.time()` / `time.sleep()` and also `time()` (after `from time import time`)."""
+    return fake if isinstance(fake, _DualTime) else _DualTime(fake)
+
+
+def _forwarder(module, kind, attr, real_fn):
+    def forward(*a, **kw):
+        holder = module.__dict__.get(kind)
+        fn = getattr(holder, attr, None) if holder is not None else None
+        return (fn if fn is not None else real_fn)(*a, **kw)
+    forward.__name__ = getattr(real_fn, "__name__", attr)
+    forward._verif_forwarder = (kind, attr)
+    return forward
+
+
+def normalize_boundary(extra=()):
+    """see above; idempotent; returns the list of (module, global, boundary function) that were rebound"""
+    import importlib
+    import types
+    for name in tuple(_JADE_BOUNDARY_USERS) + tuple(extra):
+        try:
+            importlib.import_module(name)
+        except Exception:  # noqa  (a module that no longer exists is somebody else's finding)
+            pass
+    done = []
+    for mname, mod in list(sys.modules.items()):
+        if mod is None or not (mname == "jade" or mname.startswith("jade.")):
+            continue
+        for kind in _BOUNDARY_MODULES:
+            real = importlib.import_module(kind)
+            aliases = []
+            for g, val in list(vars(mod).items()):
+                if g == kind or isinstance(val, types.ModuleType) or not callable(val) or hasattr(val, "_verif_forwarder"):
+                    continue
+                for attr in _BOUNDARY_ATTRS[kind]:
+                    if getattr(real, attr, None) is val:
+                        aliases.append((g, attr, val))
+            if aliases and kind not in vars(mod):
+                setattr(mod, kind, real)          # so that the suites find (and can replace) the name
+            for g, attr, val in aliases:
+                setattr(mod, g, _forwarder(mod, kind, attr, val))
+                done.append((mname, g, f"{kind}.{attr}"))
+    return done
